@@ -10,10 +10,11 @@ import (
 )
 
 func gen(r *vh.Rand) string {
-	if r.Chance(1, 8) {
+	// real sockets: mostly in the thorough tier (the corpus keeps a fixed set in the quick tier)
+	if (vh.Thorough && r.Chance(1, 8)) || (!vh.Thorough && r.Chance(1, 40)) {
 		return sim.GenProxy(r) // websocket / stream proxy bookkeeping (second op stream)
 	}
-	k := sim.Knobs{MaxReqs: 4, Interleave: true, FinishPct: 12, ErrPct: 55, ReplacePct: 10}
+	k := sim.Knobs{MaxReqs: 4, Interleave: true, FinishPct: 12, ErrPct: 55, ReplacePct: 10, PanicPermille: 12}
 	switch r.Intn(6) {
 	case 0:
 		k.MaxReqs, k.Interleave = 1, false
